@@ -27,6 +27,10 @@ pub enum Class {
     /// a chosen offset, then 2/3/4-byte characters, so that a character straddles any byte offset
     /// a receiver might cut or inspect at.
     LongText,
+    /// A message (as it is, or with its `r` / `a` dictionary turned into the list of its values: serde
+    /// structs also deserialize from sequences) followed by more tokens after its end - empty strings,
+    /// huge or zero-padded length prefixes, unterminated containers.
+    TrailingTokens,
 }
 
 fn count_nodes(v: &B) -> usize {
@@ -254,7 +258,8 @@ impl Hostile {
     pub fn datagram(&self, rng: &mut ChaCha8Rng) -> (Vec<u8>, Class) {
         let base = gen::krpc(rng).to_value();
         let class = match rng.gen_range(0..100) {
-            0..=13 => Class::HugeLength,
+            0..=10 => Class::HugeLength,
+            11..=13 => Class::TrailingTokens,
             14..=17 => Class::LongText,
             18..=29 => Class::IntLimit,
             30..=44 => Class::Nesting,
@@ -375,6 +380,50 @@ impl Hostile {
                 opts.choose(rng).unwrap().to_vec()
             }
             Class::Valid => base.encode(),
+            Class::TrailingTokens => {
+                let mut v = base.clone();
+                if rng.gen_bool(0.6) {
+                    if let B::Dict(items) = &mut v {
+                        for (k, val) in items.iter_mut() {
+                            if k == b"r" || k == b"a" {
+                                if let B::Dict(inner) = val {
+                                    let mut vals: Vec<B> = inner.iter().map(|(_, x)| x.clone()).collect();
+                                    vals.truncate(rng.gen_range(0..=vals.len()));
+                                    *val = B::List(vals);
+                                }
+                            }
+                        }
+                    }
+                }
+                // the list-valued entry last in the message (keys out of order), or alone: a reader
+                // that takes a struct from a sequence then runs on into whatever follows the message
+                if let B::Dict(items) = &mut v {
+                    if let Some(at) = items.iter().position(|(k, val)| (k == b"r" || k == b"a") && matches!(val, B::List(_))) {
+                        let item = items.remove(at);
+                        match rng.gen_range(0..3) {
+                            0 => items.clear(),
+                            1 => items.truncate(rng.gen_range(0..=items.len())),
+                            _ => {}
+                        }
+                        items.push(item);
+                    }
+                }
+                let mut bytes = v.encode();
+                for _ in 0..rng.gen_range(1..4) {
+                    let mag = self.mags.choose(rng).cloned().unwrap_or_else(|| "99999999999".to_owned());
+                    let piece: Vec<u8> = match rng.gen_range(0..7) {
+                        0 => b"0:".to_vec(),
+                        1 => format!("{mag}:").into_bytes(),
+                        2 => format!("0{mag}:xx").into_bytes(),
+                        3 => format!("l{mag}:").into_bytes(),
+                        4 => format!("d1:x{mag}:").into_bytes(),
+                        5 => b"i1e".to_vec(),
+                        _ => b"e".to_vec(),
+                    };
+                    bytes.extend_from_slice(&piece);
+                }
+                bytes
+            }
             Class::LongText => {
                 let k = if rng.gen_bool(0.7) { rng.gen_range(0..=130) } else { rng.gen_range(0..=600) };
                 let mut text: String = (0..k).map(|_| (b'a' + rng.gen_range(0..26u8)) as char).collect();
